@@ -43,6 +43,14 @@ func raceBody(d raceDesc) func() {
 				return nil, fmt.Errorf("a socket-activated service bound %s:%s itself", network, address)
 			}
 		}
+		address := "unix:@vx"
+		if d.Via == "listenpath" {
+			// a unix path address: the library reaches the listener through its concrete type (SetUnlinkOnClose), which
+			// the instrumenter routes to the controlled listener; nothing exists at the path
+			address = "unix:/vx-no-such-dir/s"
+			ul := &vnet.UnixListener{Listener: l}
+			vsched.ListenHook = func(network, address string) (interface{}, error) { return ul, nil }
+		}
 		var timeout time.Duration
 		if d.Timer {
 			timeout = time.Hour
@@ -51,8 +59,8 @@ func raceBody(d raceDesc) func() {
 			var err error
 			started = true
 			w.ev("serve-start")
-			if d.Via == "listen" || d.Via == "activated" {
-				err = w.S.Listen(w.Ctx, "unix:@vx", timeout)
+			if d.Via == "listen" || d.Via == "activated" || d.Via == "listenpath" {
+				err = w.S.Listen(w.Ctx, address, timeout)
 			} else {
 				w.S.VerifSetListener(l)
 				err = w.S.DoListen(w.Ctx, timeout)
@@ -192,6 +200,27 @@ func scenariosC16(tier string) []Scen {
 				bound++
 			}
 			out = append(out, Scen{Desc: d, Bound: bound, Body: raceBody(d), Check: raceCheck, Obs: raceObs})
+		}
+	}
+	// a unix path address: what the library does to the listener through its concrete type (the unlink flag of
+	// net.UnixListener, written by SetUnlinkOnClose and read by Close) is ordered with every Close another goroutine
+	// can reach through Shutdown or GetListener
+	for _, os := range opSets {
+		if len(os) > 2 {
+			continue
+		}
+		for _, cs := range [][]string{nil, {"callhalf"}} {
+			for _, timer := range []bool{false, true} {
+				d := raceDesc{Ops: os, Conns: cs, Via: "listenpath", Timer: timer}
+				bound := 3
+				if len(os)+len(cs) > 2 {
+					bound = 2
+				}
+				if tier != "quick" {
+					bound++
+				}
+				out = append(out, Scen{Desc: d, Bound: bound, Body: raceBody(d), Check: raceCheck, Obs: raceObs})
+			}
 		}
 	}
 	// client side: one goroutine at a time uses the connection; operations are cancelled at every
